@@ -100,8 +100,28 @@ def run_cases(mod, cases):
   per = max(1, (n + workers * 4 - 1) // (workers * 4))
   chunks = [cases[i:i + per] for i in range(0, n, per)]
   ctx = multiprocessing.get_context('fork')
-  with ctx.Pool(workers) as pool:
-    parts = pool.map(_worker, [(mod.PID, ch) for ch in chunks])
+  parts = [None] * len(chunks)
+  try:
+    from concurrent.futures import ProcessPoolExecutor
+    with ProcessPoolExecutor(max_workers=workers, mp_context=ctx) as ex:
+      futs = [ex.submit(_worker, (mod.PID, ch)) for ch in chunks]
+      for k, f in enumerate(futs):
+        try:
+          parts[k] = f.result()
+        except BaseException:      # a worker was killed from outside (e.g. out of memory): that chunk is redone below
+          parts[k] = None
+  except BaseException:
+    pass
+  redo = [k for k, p in enumerate(parts) if p is None]
+  if redo:
+    if hasattr(mod, 'setup'):
+      mod.setup()
+    for k in redo:
+      out = []
+      for c in chunks[k]:
+        o = _safe_impl(mod, c)
+        out.append((o, _safe_monitor(mod, c, o)))
+      parts[k] = out
   return [x for p in parts for x in p]
 
 
